@@ -147,7 +147,7 @@ m("c12-im2-len-guard-removed",["C12"],"cpu.go","\tcase 2:\n\t\t// Interrupt with
 m("c12-default-arm-loops",["C12","C09"],"operation.go","\tdefault:\n\t\tcpu.invalidCode(c0)\n","\tdefault:\n\t\tfor c0 == 0xdd {\n\t\t\tc0 = cpu.fetchM1()\n\t\t}\n\t\tcpu.invalidCode(c0)\n")
 m("c12-invalid-ed-rewinds",["C12","C01"],"operation.go","\t\tdefault:\n\t\t\tcpu.invalidCode(c0, c1)\n\t\t}\n\n\tcase 0xfd:","\t\tdefault:\n\t\t\tcpu.invalidCode(c0, c1)\n\t\t\tcpu.PC--\n\t\t}\n\n\tcase 0xfd:",note="unsupported ED opcode is not consumed: its second byte is executed again")
 m("c12-io-nil-check-dropped",["C12"],"cpu.go","func (cpu *CPU) ioOut(addr uint8, value uint8) {\n\tif cpu.IO == nil {\n\t\treturn\n\t}\n","func (cpu *CPU) ioOut(addr uint8, value uint8) {\n")
-m("c12-retn-handler-called-after-pop",["C12"],"op_callret.go","func oopRETN(cpu *CPU) {\n\tif cpu.RETNHandler != nil {\n\t\tcpu.RETNHandler.RETNHandle()\n\t}\n\n\tcpu.PC = cpu.readU16(cpu.SP)","func oopRETN(cpu *CPU) {\n\tif cpu.RETNHandler == nil {\n\t\tcpu.PC = cpu.readU16(cpu.SP)\n\t\tcpu.SP += 2\n\t\tcpu.IFF1 = cpu.IFF2\n\t\treturn\n\t}\n\tcpu.PC = cpu.readU16(cpu.SP)\n\tcpu.RETNHandler.RETNHandle()\n",note="handler invoked after memory callbacks ran since the nil test")
+m("c12-retn-handler-called-after-pop",["C12"],"op_callret.go","func oopRETN(cpu *CPU) {\n\tif cpu.RETNHandler != nil {\n\t\tcpu.RETNHandler.RETNHandle()\n\t}\n\n\tcpu.PC = cpu.readU16(cpu.SP)","func oopRETN(cpu *CPU) {\n\tif cpu.RETNHandler == nil {\n\t\tcpu.PC = cpu.readU16(cpu.SP)\n\t\tcpu.SP += 2\n\t\tcpu.IFF1 = cpu.IFF2\n\t\treturn\n\t}\n\tcpu.PC = cpu.readU16(cpu.SP)\n\tcpu.RETNHandler.RETNHandle()\n",expect="silent",note="handler invoked after memory callbacks ran since the nil test: safe under the stated callback assumption (callbacks may change CPU.Interrupt only), decided by value")
 m("c12-im0-overlay-end-off-by-one",["C12"],"cpu.go","\t\tend:   pc + uint16(len(d)-1),","\t\tend:   pc + uint16(len(d)),",note="overlay range one byte too long: data[len] is read when the instruction fetches one more byte")
 m("c12-dumbio-refactor",["C12","C15"],"memio.go","func (dio DumbIO) In(addr uint8) uint8 {\n\tif int(addr) >= len(dio) {\n\t\treturn 0\n\t}\n\treturn dio[addr]","func (dio DumbIO) In(addr uint8) uint8 {\n\tif int(addr) < len(dio) {\n\t\treturn dio[addr]\n\t}\n\treturn 0",expect="silent",note="guard inverted, same behaviour")
 
